@@ -46,7 +46,7 @@ func init() {
 			}
 			return 100000
 		},
-		Run:        run,
+		Run: run,
 	})
 }
 
@@ -71,6 +71,15 @@ func expired(m *api.Metric) bool { return m.Expire < time.Now().UnixNano() }
 
 func run(c *fw.Ctx, idx int) {
 	r := c.Rand("main")
+	// the first cases of every child are the cadence family (real Cluster, wall clock)
+	ncad := 8
+	if c.Thorough() {
+		ncad = 48
+	}
+	if idx < ncad {
+		cadenceCase(c, r)
+		return
+	}
 	if idx%4 == 3 {
 		monitorCase(c, r)
 		return
